@@ -339,6 +339,10 @@ func (cache *dirCache) markDir(path string, size uint64) {
 	defer cache.mutex.Unlock()
 	cache.added[path] = size
 	cache.added[path+"="] = size
+	if cache.Suffix != "" {
+		// The temporary name of a compressed entry is <key>=<suffix>, not <key><suffix>=
+		cache.added[strings.TrimSuffix(path, cache.Suffix)+"="+cache.Suffix] = size
+	}
 }
 
 // isMarked returns true if a directory has previously been passed to markDir.
